@@ -41,6 +41,7 @@ type SliceV struct {
 type BytesV struct {
 	isNil *Term // Bool
 	s     *Term // String
+	buf   *bufCell // non-nil: the slice shares the storage of this bytes.Buffer (see bytesbuf.go)
 }
 
 // MapV is a reference to a map object; nil *MapObj pointer means nil map.
